@@ -53,6 +53,9 @@ func runC13(c *fw.Ctx) {
 	// ---- (ii): upstream programs ----
 	for i := 0; i < c.Pick(6000, 400000); i++ {
 		c.Case(func(k *fw.K) { c13Upstream(k) })
+		if i%8 == 0 {
+			c.Case(func(k *fw.K) { c13BroadcastPrediction(k) })
+		}
 	}
 }
 
@@ -250,6 +253,62 @@ func c13Leaf(k *fw.K, kind string, b, cl int) {
 	}
 	k.Key("%s/%d/%d/leaf/%v", kind, b, cl, present)
 	k.Sample()
+}
+
+// c13BroadcastPrediction: the prediction is the direct result of an explicit, expanding Broadcast of a tracked tensor (a class-prior
+// baseline w.Broadcast([N, C]), a constant prediction broadcast over the batch). Only the PREDICTION's own gradient is decided here
+// (what reaches the source is C07's subject).
+func c13BroadcastPrediction(k *fw.K) {
+	r := k.Rng
+	kind := []string{"mse", "bce", "ce"}[r.Intn(3)]
+	n := 2 + r.Intn(4)
+	src, target := []int{}, []int{n}
+	if kind == "ce" {
+		cl := 1 + r.Intn(4)
+		src, target = [][]int{{cl}, {1, cl}}[r.Intn(2)], []int{n, cl}
+	} else if r.Intn(2) == 0 {
+		src = []int{1}
+	}
+	wv := ref.Zeros(src)
+	for i := range wv.Data {
+		wv.Data[i] = 0.1 + 0.8*r.Float64()
+	}
+	p, err := ref.Apply(ref.Instr{Op: "broadcast", Shape: target}, []*ref.T{wv})
+	if err != nil {
+		k.Failf("harness: %v", err)
+		return
+	}
+	t := ref.Zeros(target)
+	for i := range t.Data {
+		t.Data[i] = []float64{0, 1, 0.05 + 0.9*r.Float64()}[r.Intn(3)]
+	}
+	k.Case = map[string]any{"loss": kind, "source": src, "prediction_shape": target, "w": wv.Data, "targets": t.Data}
+	k.Key("%s/broadcast-prediction/%s/%s", kind, shapeKey(src), shapeKey(target))
+	k.Count("predictions_that_are_explicit_broadcast_results", 1)
+	w := rt.MustLeaf(wv, true)
+	var rp, l tensor.Tensor
+	if pn := call(func() {
+		if rp, err = w.Broadcast(ref.CopyInts(target)); err == nil {
+			if l, err = lossObj(kind).Compute(rp, rt.MustLeaf(t, false)); err == nil {
+				err = tensor.BackPropagate(l)
+			}
+		}
+	}); pn != nil || err != nil || rp == nil {
+		k.Failf("%s over a prediction that is an explicit Broadcast %v -> %v: panic=%v err=%v", kind, src, target, pn, err)
+		return
+	}
+	g := rp.Gradient()
+	if g == nil {
+		k.Failf("%s over a prediction that is the result of an explicit Broadcast %v -> %v: the prediction received no gradient", kind, src, target)
+		return
+	}
+	want := ref.VJP(ref.Instr{Op: kind}, []*ref.T{p, t}, nil, ref.Scalar(1), ref.RuleSum)[0]
+	if e := rt.Compare(g, want, 1e-12, 1e-9, nil, 0); e != nil {
+		k.Failf("%s over a prediction that is the result of an explicit Broadcast %v -> %v: gradient of the prediction: %v", kind, src, target, e)
+	}
+	if w.Gradient() == nil {
+		k.Failf("%s over a broadcast prediction: the broadcast source received no gradient", kind)
+	}
 }
 
 func c13Upstream(k *fw.K) {
